@@ -4,6 +4,8 @@ import (
 	"fmt"
 	"go/ast"
 	"go/token"
+	"os"
+	"path/filepath"
 	"strings"
 )
 
@@ -247,6 +249,119 @@ func genFsDownload() {
 	}
 	sb.WriteString("/-- copyFromZipArchive: after MaxUnpackSize bytes were copied without error the code reads on and fails if the\n    member has more (true), or returns nil at once (false: a larger member is cut and accepted). -/\n")
 	sb.WriteString(fmt.Sprintf("def zipLimitChecked : Bool := %v\n\n", limitChecked))
+	// ---- unpacking.go: what serialises two unpackers of one resource
+	// unpackZipArchive works in a NAME-DERIVED temp directory, decides by "does the destination exist?" and removes
+	// the destination when it fails: two of them at once disturb each other. UnpackArchive must therefore hold the
+	// resource's lock exclusively around it, and nothing else may call unpackZipArchive.
+	ua := findFunc(f2, "UnpackArchive", "Resource")
+	uz := findFunc(f2, "unpackZipArchive", "Resource")
+	if ua == nil || uz == nil {
+		die("fsdownload: func (*Resource).UnpackArchive / unpackZipArchive not found")
+	}
+	if ua.Recv.List[0].Names == nil || len(ua.Recv.List[0].Names) != 1 {
+		die("fsdownload: UnpackArchive: unnamed receiver")
+	}
+	recvName := ua.Recv.List[0].Names[0].Name
+	callOn := func(st ast.Stmt, deferred bool) string { // "<recv>.<Method>()" of an expression / defer statement
+		var call *ast.CallExpr
+		switch x := st.(type) {
+		case *ast.ExprStmt:
+			if !deferred {
+				call, _ = x.X.(*ast.CallExpr)
+			}
+		case *ast.DeferStmt:
+			if deferred {
+				call = x.Call
+			}
+		}
+		if call == nil || len(call.Args) != 0 {
+			return ""
+		}
+		return exprString(fset2, call.Fun)
+	}
+	lockKind := -1
+	if len(ua.Body.List) >= 2 {
+		a, b := callOn(ua.Body.List[0], false), callOn(ua.Body.List[1], true)
+		switch {
+		case a == recvName+".Lock" && b == recvName+".Unlock":
+			lockKind = 2
+		case a == recvName+".RLock" && b == recvName+".RUnlock":
+			lockKind = 1
+		case !strings.Contains(a, "Lock") && !strings.Contains(b, "Lock") && !strings.Contains(b, "Unlock"):
+			lockKind = 0
+		}
+	}
+	if lockKind < 0 {
+		die("fsdownload: UnpackArchive: expected `%s.Lock(); defer %s.Unlock()` (or the RLock pair, or no lock) as the first two statements", recvName, recvName)
+	}
+	// no other lock / unlock call anywhere in UnpackArchive or unpackZipArchive (the lock is held to the end)
+	nLockCalls := 0
+	for _, fn := range []*ast.FuncDecl{ua, uz} {
+		ast.Inspect(fn.Body, func(n ast.Node) bool {
+			if se, ok := n.(*ast.SelectorExpr); ok {
+				switch se.Sel.Name {
+				case "Lock", "Unlock", "RLock", "RUnlock", "TryLock", "TryRLock":
+					nLockCalls++
+				}
+			}
+			return true
+		})
+	}
+	if want := map[int]int{0: 0, 1: 2, 2: 2}[lockKind]; nLockCalls != want {
+		die("fsdownload: UnpackArchive / unpackZipArchive: %d lock/unlock calls, expected %d", nLockCalls, want)
+	}
+	// the callers of unpackZipArchive: exactly one, inside UnpackArchive, after the lock statements
+	for _, rel := range goFilesOf("updater") {
+		fsx, fx := parseFile(rel)
+		_ = fsx
+		for _, d := range fx.Decls {
+			fd, ok := d.(*ast.FuncDecl)
+			if !ok || fd.Body == nil {
+				continue
+			}
+			ast.Inspect(fd.Body, func(n ast.Node) bool {
+				if se, ok := n.(*ast.SelectorExpr); ok && se.Sel.Name == "unpackZipArchive" {
+					if rel != "updater/unpacking.go" || fd.Name.Name != "UnpackArchive" {
+						die("fsdownload: unpackZipArchive is used outside UnpackArchive (%s, func %s): not covered by the resource lock", rel, fd.Name.Name)
+					}
+				}
+				return true
+			})
+		}
+	}
+	// the lock itself: Resource embeds sync.Mutex (or sync.RWMutex, whose Lock() is exclusive as well)
+	_, fr := parseFile("updater/resource.go")
+	embedded := ""
+	for _, d := range fr.Decls {
+		gd, ok := d.(*ast.GenDecl)
+		if !ok || gd.Tok != token.TYPE {
+			continue
+		}
+		for _, sp := range gd.Specs {
+			ts := sp.(*ast.TypeSpec)
+			st, ok := ts.Type.(*ast.StructType)
+			if !ok || ts.Name.Name != "Resource" {
+				continue
+			}
+			for _, fl := range st.Fields.List {
+				if len(fl.Names) == 0 {
+					if se, ok := fl.Type.(*ast.SelectorExpr); ok {
+						if x, ok := se.X.(*ast.Ident); ok && x.Name == "sync" && (se.Sel.Name == "Mutex" || se.Sel.Name == "RWMutex") {
+							if embedded != "" {
+								die("fsdownload: type Resource embeds more than one lock")
+							}
+							embedded = se.Sel.Name
+						}
+					}
+				}
+			}
+		}
+	}
+	if embedded == "" {
+		die("fsdownload: type Resource does not embed sync.Mutex / sync.RWMutex")
+	}
+	sb.WriteString("/-- updater/unpacking.go (*Resource).UnpackArchive, first two statements: 2 = `res.Lock(); defer res.Unlock()` (exclusive,\n    held until unpackZipArchive has returned), 1 = `res.RLock(); defer res.RUnlock()` (shared), 0 = no lock. The extractor\n    also checks that unpackZipArchive is called from nowhere else and that Resource embeds sync." + embedded + ". -/\n")
+	sb.WriteString(fmt.Sprintf("def unpackLock : Nat := %d\n\n", lockKind))
 	sb.WriteString("end PB.Gen.FsDownload\n")
 	write("FsDownload.lean", sb.String())
 }
@@ -264,6 +379,22 @@ func endsWithErrorReturn(b *ast.BlockStmt) bool {
 		return false
 	}
 	return true
+}
+
+// goFilesOf lists the non-test Go files of a package directory of the repo (relative paths).
+func goFilesOf(dir string) []string {
+	es, err := os.ReadDir(filepath.Join(repo, dir))
+	if err != nil {
+		die("fsdownload: %v", err)
+	}
+	var out []string
+	for _, e := range es {
+		n := e.Name()
+		if !e.IsDir() && strings.HasSuffix(n, ".go") && !strings.HasSuffix(n, "_test.go") {
+			out = append(out, dir+"/"+n)
+		}
+	}
+	return out
 }
 
 func leanQuote(s string) string {
